@@ -67,6 +67,13 @@ def route_run(route, user, password_try):
     try:
         native = NativePasswordAuthPlugin()
         plugins = [native, NoLoginAuthPlugin()] if route in ("optimistic", "change-user-reuse") else [NoLoginAuthPlugin(), native]
+        if route.startswith("clear-login"):
+            class ClearP(AbstractClearPasswordAuthPlugin):
+                name = "mysql_clear_password"
+
+                async def check(self, username, password):
+                    return username if password == "clearpw" else None
+            plugins = [native, ClearP()]
         sess = []
 
         def factory():
@@ -75,7 +82,8 @@ def route_run(route, user, password_try):
             return s
 
         login = User(name="login", auth_string=NativePasswordAuthPlugin.create_auth_string("loginpw"), auth_plugin=native.name)
-        srv = impl.make_server(env, factory, identity_provider=IP({"target": user, "login": login}, plugins))
+        clearuser = User(name="clearuser", auth_plugin="mysql_clear_password")
+        srv = impl.make_server(env, factory, identity_provider=IP({"target": user, "login": login, "clearuser": clearuser}, plugins))
         c = impl.Conn(env, srv)
         env.settle()
         hs = cl.parse_handshake_v10(cl.reassemble(c.take())[0][1])
@@ -89,7 +97,10 @@ def route_run(route, user, password_try):
                 body = pk[-1][1]
                 i = body.index(0, 1)
                 new_nonce = body[i + 1:].rstrip(b"\0")
-                c.feed(cl.frame(cl.native_scramble(pw, new_nonce), seq))
+                if body[1:i] == b"mysql_clear_password":
+                    c.feed(cl.frame(pw + b"\0", seq))
+                else:
+                    c.feed(cl.frame(cl.native_scramble(pw, new_nonce), seq))
                 pk = cl.reassemble(c.take())
                 seq += 2
             return pk
@@ -99,6 +110,17 @@ def route_run(route, user, password_try):
             # announcing another plugin forces the auth-switch round trip
             plugin = b"mysql_native_password" if route == "optimistic" else b"caching_sha2_password"
             pk = answer_exchange(password_try, cl.handshake_response(user=b"target", auth=resp, plugin=plugin), 1)
+        elif route.startswith("clear-login"):
+            # log in through an auth switch to ANOTHER plugin (clear password), then COM_CHANGE_USER to the native account with
+            # a scramble under the nonce the handshake issued (or, for the negative route, under the switch request's data)
+            pk = answer_exchange(b"clearpw", cl.handshake_response(user=b"clearuser", auth=b"", plugin=b"mysql_native_password"), 1)
+            if not pk or pk[-1][1][:1] != b"\x00":
+                return None, None
+            use = nonce if route == "clear-login-then-change-user-reuse" else b"0" * 20
+            resp = cl.native_scramble(password_try, use)
+            cu = bytes([cl.COM_CHANGE_USER]) + b"target\0" + bytes([len(resp)]) + resp + b"\0" + b"\x08\x00" + b"mysql_native_password\0"
+            c.feed(cl.frame(cu, 0))
+            pk = cl.reassemble(c.take())
         else:
             # log in as another user first, then COM_CHANGE_USER
             first = cl.native_scramble(b"loginpw", nonce) if route == "change-user-reuse" else b""
@@ -200,7 +222,7 @@ def run(ctx: core.Ctx):
         witness = witness or dict(kind="nonce-repeat", distinct=len(seen))
 
     # ---- the four routes through the real connection --------------------------------------------------------------
-    routes = ["optimistic", "switch", "change-user-reuse", "change-user-switch"]
+    routes = ["optimistic", "switch", "change-user-reuse", "change-user-switch", "clear-login-then-change-user-reuse"]
     nroute = 0
     for route in routes:
         for pw in (["pw", "päss wörd"] if ctx.quick else ["pw", "päss wörd", "密码", "a" * 40]):
@@ -212,6 +234,15 @@ def run(ctx: core.Ctx):
                     continue
                 if ok != should or (ok and uname != "target"):
                     witness = witness or dict(kind="route", route=route, password_ok=should, accepted=ok, session_username=uname)
+    # a scramble computed under anything but the nonce issued on this connection - here the constant data of an earlier
+    # auth-switch request to another plugin - must be refused even with the right password
+    for pw in ("pw", "päss wörd"):
+        user = User(name="target", auth_string=NativePasswordAuthPlugin.create_auth_string(pw), auth_plugin="mysql_native_password")
+        ok, uname = route_run("clear-login-foreign-nonce", user, pw.encode())
+        nroute += 1
+        if ok:
+            witness = witness or dict(kind="route", route="login through a switch to mysql_clear_password, then COM_CHANGE_USER with a scramble under the switch request's data",
+                                      accepted=True, expected=False)
     for route in routes:
         for bad in ("not-a-hash", "*" + NativePasswordAuthPlugin.create_auth_string("pw").upper(), NativePasswordAuthPlugin.create_auth_string("pw")[:-1]):
             user = User(name="target", auth_string=bad, auth_plugin="mysql_native_password")
